@@ -895,13 +895,31 @@ def run_hvmodel(ctx, case):
     model = _StubModel(prob, case["model"], case["shift"])
     ctx.count("hvmodel_" + case["model"])
     state = np.random.get_state()
+    import vopy.utils.evaluate as _ev
+    recorded = []
+
+    class _RecordingHV(Hypervolume):
+        def compute(self, pts):
+            v = super().compute(pts)
+            recorded.append(float(v))
+            return v
+
+    _orig_hv = _ev.Hypervolume
     try:
+        _ev.Hypervolume = _RecordingHV
         np.random.seed(case["seed"])
         r = call(calculate_hypervolume_discrepancy_for_model, order, prob, model)
         np.random.seed(case["seed"])
         x = generate_sobol_samples(prob.in_dim, 2048)
     finally:
+        _ev.Hypervolume = _orig_hv
         np.random.set_state(state)
+    # (R) on what the function itself computed: first the true front's hypervolume, then the predicted
+    # front's — "the hypervolume of the true front is never smaller than that of any predicted subset".
+    if len(recorded) >= 2 and recorded[0] < recorded[1] - 1e-9 * max(1.0, abs(recorded[0])):
+        _viol(ctx, "hv-order-in-function", "calculate_hypervolume_discrepancy_for_model measured a true-front "
+              "hypervolume smaller than the predicted front's (same sample, same reference point)", case,
+              detail={"hv_true": recorded[0], "hv_pred": recorded[1]})
     f = prob.evaluate(x)
     ti = order.get_pareto_set(f)
     y, _ = model.predict(x)
